@@ -709,6 +709,70 @@ static int op_rxeval(int argc, char **argv, FILE *out) {
     return 1;
 }
 
+/* dynrealm <hex DynamicLookupCommand> <hex id>: a realm whose only server is to be discovered dynamically is
+   asked for `id` (the User-Name as a C string), exactly as findserver does; the real clientwr thread then
+   starts the lookup. Prints the sub-realm created (if any), the recorded argument vector of the command
+   and the DNS question asked. */
+static int op_dynrealm(int argc, char **argv, FILE *out) {
+    char *cmd, *id;
+    struct list *rl;
+    struct realm *realm, *sub;
+    struct clsrvconf *conf;
+    if (argc != 2)
+        return 0;
+    cmd = hxstr(argv[0]);
+    id = hxstr(argv[1]);
+    if (!cmd || !id)
+        return 0;
+    h_threads_reset();
+    h_execlog_reset();
+    h_dns_set_answer((const uint8_t *)"", 0, -1);
+    if (!protodefs[RAD_TCP])
+        protodefs[RAD_TCP] = tcpinit(RAD_TCP);
+    rl = list_create();
+    {
+        char star[] = "*";
+        realm = addrealm(rl, star, NULL, NULL, NULL, 0, 0);
+    }
+    conf = calloc(1, sizeof(*conf));
+    conf->name = stringcopy("dyn", 0);
+    conf->type = RAD_TCP;
+    conf->pdef = protodefs[RAD_TCP];
+    conf->dynamiclookupcommand = cmd;
+    conf->secret = (uint8_t *)stringcopy("s", 0);
+    conf->secret_len = 1;
+    conf->lock = malloc(sizeof(pthread_mutex_t));
+    pthread_mutex_init(conf->lock, NULL);
+    realm->srvconfs = list_create();
+    list_push(realm->srvconfs, conf);
+    sub = adddynamicrealmserver(realm, id);
+    if (!sub)
+        fputs("none", out);
+    else {
+        struct list_node *e;
+        fputs("sub:", out);
+        puthex(out, (uint8_t *)sub->name, strlen(sub->name));
+        for (e = list_first(sub->srvconfs); e; e = list_next(e)) {
+            struct clsrvconf *c = e->data;
+            if (c->servers && c->servers->dynamiclookuparg) {
+                fputs(" arg:", out);
+                puthex(out, (uint8_t *)c->servers->dynamiclookuparg, strlen(c->servers->dynamiclookuparg));
+            }
+        }
+    }
+    fputs(h_execlog_take(), out);
+    if (h_dns_last_qtype() >= 0) {
+        fprintf(out, " dns:%d:", h_dns_last_qtype());
+        puthex(out, (const uint8_t *)h_dns_last_qname(), strlen(h_dns_last_qname()));
+    }
+    {
+        char *tr = h_transcript_take();
+        free(tr);
+    }
+    free(id);
+    return 1;
+}
+
 /* locks: the (held > acquired) mutex pairs the real code has exhibited so far in this process */
 static int op_locks(int argc, char **argv, FILE *out) {
     (void)argv;
@@ -961,6 +1025,7 @@ int h_rsp_op(const char *op, int argc, char **argv, FILE *out) {
     if (!strcmp(op, "writer")) return op_writer(argc, argv, out);
     if (!strcmp(op, "tick")) return op_tick(argc, argv, out);
     if (!strcmp(op, "locks")) return op_locks(argc, argv, out);
+    if (!strcmp(op, "dynrealm")) return op_dynrealm(argc, argv, out);
     if (!strcmp(op, "idle")) return op_idle(argc, argv, out);
     if (!strcmp(op, "rxeval")) return op_rxeval(argc, argv, out);
     if (!strcmp(op, "reset")) return op_reset(argc, argv, out);
